@@ -725,6 +725,12 @@ func cdrCheck(t *testing.T, prop string) int {
 								cs = append(cs, c)
 							}
 							ops = append(ops, Op{K: "update", S: 0, MUs: []MU{{RG: 1, Req: 10, Conts: cs}}})
+							if m <= 6 {
+								// the same usage reported together with a dozen triggers (whatever else of a request goes into
+								// the record must be inside the size limit as well)
+								ops = append(ops, Op{K: "update", S: 0, MUs: []MU{{RG: 1, Req: 10, Conts: cs}},
+									Trig: []string{"QHT", "QT", "QHT", "QT", "QHT", "QT", "QHT", "QT", "QHT", "QT", "QHT", "QT"}})
+							}
 						}
 					}
 					return
